@@ -7,6 +7,7 @@
    old-or-new latitude of deliberately ignored data. *)
 From Coq Require Import List ZArith Permutation.
 Require Import R.DModel3 R.DProofs4 Inst.DeriveInst G.GlueAll.
+Require U.UnordArr M.MapFlat U.UADebugAsserts M.MFDebugAsserts.
 Section C16.
 Variables (uio1 uio2 : list (Z * nat) -> list (Z * nat)) (mio1 mio2 : list (Z * (Z * nat)) -> list (Z * (Z * nat))) (rio1 rio2 : list (Z * value) -> list (Z * value)).
 Hypothesis P1 : forall m, Permutation (uio1 m) m.
@@ -25,5 +26,22 @@ Proof.
   pose proof (C01_closed_g uio2 P2 mio2 P4 ko rio2 P6 s a b Wa Wb) as R2.
   split; [exact R1|]. split; [exact R2|]. split; [exact (proj1 R_implies_Eq s true a b _ Wb R1)|exact (proj1 R_implies_Eq s true a b _ Wb R2)].
 Qed.
+
+(* (b) the assertion sites of `debug_asserts` (and the always-compiled unreachable!() of the flat map's removal loop) are unreachable:
+   the variants of the two unordered back ends that panic (None) at these sites compute exactly what the plain models compute —
+   diff for all inputs and either map mode, apply for EVERY diff value (produced by diff or not) and every base, under any hash order. *)
+Theorem debug_asserts_never_fire :
+  (forall p c, UADebugAsserts.hashcmp_da Z.eqb uio1 p c = UnordArr.hashcmp Z.eqb uio1 p c) /\
+  (forall base d, UADebugAsserts.apply_da Z.eqb uio1 base d = Some (UnordArr.apply Z.eqb uio1 base d)) /\
+  (forall key_only p c, MFDebugAsserts.hashcmp_da Z.eqb Z.eqb mio1 key_only p c = MapFlat.hashcmp Z.eqb Z.eqb mio1 key_only p c) /\
+  (forall base d, MFDebugAsserts.apply_da Z.eqb mio1 base d = Some (MapFlat.apply Z.eqb mio1 base d)).
+Proof.
+  split; [|split; [|split]].
+  - exact (UADebugAsserts.hashcmp_da_same Z.eqb Z.eqb_eq uio1 P1).
+  - exact (UADebugAsserts.apply_da_same Z.eqb uio1).
+  - exact (MFDebugAsserts.hashcmp_da_same Z.eqb Z.eqb Z.eqb_eq mio1 P3).
+  - exact (MFDebugAsserts.apply_da_same Z.eqb mio1).
+Qed.
 End C16.
 Print Assumptions feature_invariance.
+Print Assumptions debug_asserts_never_fire.
